@@ -4,6 +4,20 @@ PROP = {
     "extra_v": ["ClientEnergyRun.v"],
     "run_vo": "ClientEnergyRun.vo",
     "suites": [("test", "energy")],
-    "assumptions": [],
+    "trusted_extra": [
+        "Flocq 4.1.0 (IEEE-754 binary64: b64_of_bits, b64_mult, b64_div, b64_compare, Btrunc) as the meaning of Go's float64 arithmetic on amd64 (no FMA contraction for x*y/z)",
+        "standard-library axioms under the C16 theorems, exactly as Print Assumptions lists them (c16_total, c16_unchecked_panics, c16_slot, c16_value; c16_ct is closed): ClassicalDedekindReals.sig_not_dec, ClassicalDedekindReals.sig_forall_dec, FunctionalExtensionality.functional_extensionality_dep, Classical_Prop.classic -- they enter through Flocq's real-number layer (the binary64 operations carry boundedness proofs stated over R; B2R / Btrunc_correct / Bcompare_correct)",
+        "Go's encoding/csv, strconv.ParseInt / ParseFloat and bufio.Scanner: the model starts from their outputs, which the harness obtains from the same standard-library functions on the identical bytes",
+    ],
+    "assumptions": [
+        "rows = what encoding/csv delivers before its first error (io.EOF included); the reader stops there, so rows after a CSV-level error (e.g. a row whose field count differs from the first row's) are not processed -- 'each well-formed row' means each delivered row",
+        "uint64(float64) is modelled as: exact truncation for values in [0, 2^64), two's complement for negative values down to -2^63 (amd64 CVTTSD2SQ), unspecified otherwise (NaN, infinities, larger magnitudes): for those only the absence of a crash and the slot are compared",
+        "c16_slot is stated for timestamps G <= t < G + 2^32; beyond that glow.UnixToTimeslot truncates to uint32 before dividing (K5, outside the stated domain, Example c16_slot_wraps_beyond_domain)",
+        "the suite runs in the test build (energy file inside the client directory, genesis = process start, default calibration 1000/1000); the arithmetic is build-independent",
+    ],
 }
-TEXT = {"text": "wip", "note": "wip", "technique": "wip"}
+TEXT = {
+    "text": "Coq theorems over all row lists (any number of fields per row, any strconv verdicts), all calibration values and all binary64 readings: the reader never panics and returns the concatenation of the per-row results; a row with a timestamp in [G, G+2^32) yields exactly one record for slot (t-G)/300, earlier/unusable/short rows none; value 3 for unparseable readings, 2 for finite |f| < 24 (strict, over the reals via Bcompare_correct), otherwise trunc((mult*f)/div) mod 2^64 when finite and below 2^63 in magnitude (via Btrunc_correct); calibration file rule. The executable model (Flocq binary64 evaluated by vm_compute) is compared record-for-record with the real staticReadEnergyFile on generated CSV files under calibrations loaded by the real readCTSettingsFile, and with readCTSettingsFile itself.",
+    "note": "D11 (one-field rows indexed record[1]) was reproduced by the energy suite (replay corpus/C16/d11.json) and repaired in /repo; the pre-repair loop body is kept as energy_rows_unchecked with c16_unchecked_panics. Axioms: only the four standard-library real-number axioms listed in trusted_base. CSV splitting and number parsing are Go's (trusted, shared by model input and implementation).",
+    "technique": "Coq proof (Flocq IEEE-754 + real analysis lemmas, list induction) + differential correspondence (vm_compute) against the real reader",
+}
